@@ -632,3 +632,143 @@ u63_harness!(u63_open_log_file_len1, 1, false);
 u63_harness!(u63_open_log_file_len8, 8, false);
 u63_harness!(u63_open_log_file_len9, 9, false);
 u63_harness!(u63_open_log_file_len9_read_fails, 9, true);
+
+// ================================================================== U67: LogReader::next -- parsing of one log action and the checksum gate
+// The record reader feeds every byte of a record (action bytes and their arguments; value / chunk payloads go through
+// LogReader::read, U9) to the CRC-32 hasher and accepts the END_RECORD marker only if the four bytes behind it equal the
+// hasher's result.  crc32fast enters by contract: `update` is a recorder that checks it is handed exactly the bytes read, in
+// order; `finalize` returns a scripted value (the checksum of those bytes).  read(2) is a contract over a scripted stream
+// (BufReader with capacity 0 hands every read straight to File::read).
+pub(crate) static mut ST_BYTES: [u8; 16] = [0; 16];
+pub(crate) static mut ST_POS: usize = 0;
+pub(crate) static mut CRC_FED: usize = 0;
+pub(crate) static mut CRC_FED_OK: bool = true;
+pub(crate) static mut CRC_RESULT: u32 = 0;
+pub(crate) static mut CRC_FINALIZED: usize = 0;
+pub(crate) fn stub_stream_read(_f: &mut std::fs::File, buf: &mut [u8]) -> std::io::Result<usize> {
+	unsafe {
+		let left = 16 - ST_POS;
+		let n = if buf.len() < left { buf.len() } else { left };
+		let mut i = 0;
+		while i < n {
+			buf[i] = ST_BYTES[ST_POS + i];
+			i += 1;
+		}
+		ST_POS += n;
+		Ok(n)
+	}
+}
+pub(crate) fn stub_crc_update(_h: &mut crc32fast::Hasher, buf: &[u8]) {
+	unsafe {
+		// the hasher must see the stream without gaps: what is fed now starts where the last feed ended
+		let mut i = 0;
+		while i < buf.len() {
+			if CRC_FED + i >= 16 || buf[i] != ST_BYTES[CRC_FED + i] {
+				CRC_FED_OK = false;
+			}
+			i += 1;
+		}
+		CRC_FED += buf.len();
+	}
+}
+pub(crate) fn stub_crc_finalize(_h: crc32fast::Hasher) -> u32 {
+	unsafe {
+		CRC_FINALIZED += 1;
+		CRC_RESULT
+	}
+}
+fn u67_body(kind: u8, validate: bool) {
+	use std::os::fd::FromRawFd;
+	let mut bytes: [u8; 16] = kani::any();
+	bytes[0] = kind;
+	let expected: u32 = kani::any();
+	unsafe {
+		ST_BYTES = bytes;
+		ST_POS = 0;
+		CRC_FED = 0;
+		CRC_FED_OK = true;
+		CRC_RESULT = expected;
+		CRC_FINALIZED = 0;
+	}
+	let l: &'static RwLock<Option<Reading>> = Box::leak(Box::new(RwLock::new(Some(Reading { id: 0, file: std::io::BufReader::with_capacity(0, unsafe { std::fs::File::from_raw_fd(3) }) }))));
+	let mut r = std::mem::ManuallyDrop::new(LogReader::new(l.write(), validate));
+	let res = ok(r.next());
+	let consumed = unsafe { ST_POS };
+	let fed = unsafe { CRC_FED };
+	let mut w8 = [0u8; 8];
+	w8.copy_from_slice(&bytes[1..9]);
+	let mut w8b = [0u8; 8];
+	w8b.copy_from_slice(&bytes[3..11]);
+	let t16 = u16::from_le_bytes([bytes[1], bytes[2]]);
+	let stored = u32::from_le_bytes([bytes[1], bytes[2], bytes[3], bytes[4]]);
+	let known = kind == BEGIN_RECORD || kind == INSERT_INDEX || kind == INSERT_VALUE || kind == INSERT_REF_COUNT || kind == END_RECORD || kind == DROP_TABLE || kind == DROP_REF_COUNT_TABLE;
+	if !known {
+		assert!(res.is_none(), "U67.next.an_unknown_action_byte_is_rejected");
+	} else if kind == END_RECORD {
+		if validate {
+			// the gate: the record is accepted exactly if the stored checksum is the checksum of the bytes read
+			assert!(res.is_some() == (stored == expected), "U67.next.a_record_is_accepted_only_with_the_checksum_of_its_bytes");
+			assert!(unsafe { CRC_FINALIZED } == 1, "U67.next.a_record_is_accepted_only_with_the_checksum_of_its_bytes");
+		} else {
+			assert!(res.is_some(), "U67.next.no_error");
+		}
+		assert!(consumed == 5, "U67.next.consumes_exactly_the_action");
+		if validate {
+			assert!(fed == 1 && unsafe { CRC_FED_OK }, "U67.next.every_byte_of_the_record_but_the_checksum_itself_is_hashed");
+		}
+		if let Some(a) = &res {
+			assert!(matches!(a, LogAction::EndRecord), "U67.next.action_kind_follows_the_action_byte");
+		}
+	} else {
+		assert!(res.is_some(), "U67.next.no_error");
+		let want = if kind == BEGIN_RECORD { 9 } else if kind == DROP_TABLE || kind == DROP_REF_COUNT_TABLE { 3 } else { 11 };
+		assert!(consumed == want, "U67.next.consumes_exactly_the_action");
+		if validate {
+			assert!(fed == want && unsafe { CRC_FED_OK }, "U67.next.every_byte_of_the_record_but_the_checksum_itself_is_hashed");
+		} else {
+			assert!(fed == 0, "U67.next.nothing_is_hashed_when_not_validating");
+		}
+		match res.as_ref().unwrap() {
+			LogAction::BeginRecord => {
+				assert!(kind == BEGIN_RECORD, "U67.next.action_kind_follows_the_action_byte");
+				assert!(r.record_id() == u64::from_le_bytes(w8), "U67.next.record_id_is_read_from_the_header");
+			},
+			LogAction::InsertIndex(a) => {
+				assert!(kind == INSERT_INDEX, "U67.next.action_kind_follows_the_action_byte");
+				assert!(a.table.as_u16() == t16 && a.index == u64::from_le_bytes(w8b), "U67.next.table_and_position_are_read_from_the_action");
+			},
+			LogAction::InsertValue(a) => {
+				assert!(kind == INSERT_VALUE, "U67.next.action_kind_follows_the_action_byte");
+				assert!(a.table.as_u16() == t16 && a.index == u64::from_le_bytes(w8b), "U67.next.table_and_position_are_read_from_the_action");
+			},
+			LogAction::InsertRefCount(a) => {
+				assert!(kind == INSERT_REF_COUNT, "U67.next.action_kind_follows_the_action_byte");
+				assert!(a.table.as_u16() == t16 && a.index == u64::from_le_bytes(w8b), "U67.next.table_and_position_are_read_from_the_action");
+			},
+			LogAction::DropTable(t) => {
+				assert!(kind == DROP_TABLE && t.as_u16() == t16, "U67.next.action_kind_follows_the_action_byte");
+			},
+			LogAction::DropRefCountTable(t) => {
+				assert!(kind == DROP_REF_COUNT_TABLE && t.as_u16() == t16, "U67.next.action_kind_follows_the_action_byte");
+			},
+			LogAction::EndRecord => assert!(false, "U67.next.action_kind_follows_the_action_byte"),
+		}
+	}
+	kani::cover!(res.is_some() || !known || kind == END_RECORD, "reached");
+	std::mem::forget(res);
+}
+macro_rules! u67_harness {
+	($name:ident, $kind:expr, $validate:expr) => {
+		writer_harness!(#[kani::unwind(18)] #[kani::stub(<std::fs::File as std::io::Read>::read, stub_stream_read)] #[kani::stub(crc32fast::Hasher::update, stub_crc_update)] #[kani::stub(crc32fast::Hasher::finalize, stub_crc_finalize)] #[kani::stub(<std::os::fd::OwnedFd as std::ops::Drop>::drop, stub_owned_fd_drop)] $name, u67_body($kind, $validate));
+	};
+}
+u67_harness!(u67_next_begin, BEGIN_RECORD, true);
+u67_harness!(u67_next_insert_index, INSERT_INDEX, true);
+u67_harness!(u67_next_insert_value, INSERT_VALUE, true);
+u67_harness!(u67_next_insert_ref_count, INSERT_REF_COUNT, true);
+u67_harness!(u67_next_end, END_RECORD, true);
+u67_harness!(u67_next_end_no_validation, END_RECORD, false);
+u67_harness!(u67_next_drop_table, DROP_TABLE, true);
+u67_harness!(u67_next_drop_ref_count_table, DROP_REF_COUNT_TABLE, true);
+u67_harness!(u67_next_unknown, 0, true);
+u67_harness!(u67_next_insert_value_no_validation, INSERT_VALUE, false);
